@@ -62,8 +62,8 @@ CHECKS = {
     "C14": ("lab", "exploration", "runtime monitoring of the real parser (join_impl linked as a library): structure round trip through public accessors",
             "Random and systematically enumerated chain structures are rendered to DSL text, parsed by the real parser, and the parsed structure (operators, `~`, `>>>`/`<<<`, operand token strings, branch boundaries, `let` names, handler, options) must equal the generated one. All ordered operator pairs x flags, every operator x every adversarial operand, random chains up to 30 actions. Operands are admitted by an independent splitter so the oracle never demands more than the property's side condition.",
             "Site E1 uses proc_macro2's fallback lexer; the zoo corpus runs the same renderer through rustc.", "3/C14"),
-    "C15": ("lab", "exploration", "runtime monitoring of the real expander with catch_unwind and outcome classification over labelled invalid inputs and random token edits; rustc reject corpus",
-            "Every input ends in exactly one outcome class; internal panics, accepted structurally invalid inputs, outputs that are not a syntactically valid expression and non-termination are violations. Labelled mutations cover every invalidity named in the property, plus random token soups; the same illegal inputs are compiled through the 12 real macros by rustc (each must be an error at its own line, never a proc-macro panic).",
+    "C15": ("lab", "exploration", "runtime monitoring of the real expander with catch_unwind and outcome classification over labelled invalid inputs and random token edits; rustc reject corpus; thorough: coverage-guided fuzzing (libFuzzer, then AddressSanitizer on the corpus it built) with the same outcome oracle",
+            "Every input ends in exactly one outcome class; internal panics, accepted structurally invalid inputs, outputs that are not a syntactically valid expression and non-termination are violations. Labelled mutations cover every invalidity named in the property, plus random token soups; the same illegal inputs are compiled through the 12 real macros by rustc (each must be an error at its own line, never a proc-macro panic). The thorough tier adds a coverage-guided run: libFuzzer byte strings are decoded into DSL token streams (operator / operand / option / handler vocabulary with glue and raw punctuation, or raw text), expanded under every Config by the real parser + generator, judged by the same oracle inside the fuzz target (findings are recorded without stopping the run and confirmed through `lab total` before they count), first without a sanitizer for throughput, then under AddressSanitizer on the corpus that was built.",
             "Wrong-kind handler and futures_crate_path-on-sync rejections are raised by the generator as labelled configuration errors (panic with message), which is the pinned behaviour.", "3/C15"),
     "C20": ("lab", "exploration", "runtime monitoring: repeated and concurrent expansion of the real expander, token-string comparison (thorough: Miri data-race/UB interpreter on a 4-thread smoke run)",
             "Each (input, config) is expanded 4x sequentially in shuffled orders and 64x from 16 threads; all outputs must be identical strings; the same holds across two fresh processes that differ in working directory, environment variables, locale and input order, and under a second lexer version with inputs that make single expansions fail or panic. Thorough tier additionally interprets a concurrent expansion under Miri (fn-pointer-through-union read, Send/Sync claims, hidden statics).",
